@@ -78,6 +78,24 @@ func runC31(c *eng.Ctx) {
 		t := nodeText(n.(*ast.RangeStmt).Body)
 		return t == "{ currentNegative += float64(b) fh.NegativeBuckets[i] = currentNegative }" || t == "{ currentPositive += float64(b) fh.PositiveBuckets[i] = currentPositive }"
 	}, 2)
+	// ---- R4 a wider zero bucket swallows a bucket boundary only when the bucket it cuts is populated ----
+	{
+		z := c.Fn(H + "FloatHistogram.zeroCountForLargerThreshold")
+		widen := eng.AssignVar("largerThreshold")
+		z.Has("R4", widen, 2)
+		z.Only("R4", widen, "moves the threshold to the bucket's outer boundary only for a populated bucket that the threshold cuts", func(l eng.Loc) bool {
+			cs := z.CondsOf(l.Node)
+			if len(cs) < 2 || cs[len(cs)-1] != "b.Count != 0=T" {
+				return false
+			}
+			t := nodeText(l.Node)
+			outer := cs[len(cs)-2]
+			return (t == "largerThreshold = b.Upper" && outer == "b.Upper > largerThreshold=T") || (t == "largerThreshold = -b.Lower" && outer == "b.Lower < -largerThreshold=T")
+		})
+		// after widening on the negative side the positive side is redone
+		conts := z.Branches("continue")
+		c.Check("R4", z.Where(), "widening on the negative side restarts the whole computation", len(conts) == 1 && len(conts[0].Conds) > 0 && conts[0].Conds[len(conts[0].Conds)-1] == "b.Count != 0=T", p.Pos(z.Body.Pos()), "")
+	}
 }
 
 func replaceOnce(s, a, b string) string { return replaceAll(s, a, b) }
